@@ -214,13 +214,8 @@ end Cocls.Storage
 namespace Cocls.Storage.Mt
 open Cocls.Storage
 
-/-- every state reachable by any number of threads under any schedule (a schedule step names a thread and what it
-does next: begin an `alloc`, continue its operation by one hooked operation, or `dealloc` a live frame) -/
-def Reachable (s : State) : Prop := ∃ sched, s = run init sched
-
-theorem reachable_minv {s : State} (h : Reachable s) : MInv s := by
-  obtain ⟨sched, rfl⟩ := h
-  exact minv_run minv_init sched
+/-! `Reachable s` (StorageMtProofs.lean): `s = run init sched` for some schedule; a schedule step names a thread and what
+it does next — begin an `alloc`, continue its operation by one hooked operation, or `dealloc` a live frame. -/
 
 /-- **The thread-safe variant never hands its block to two simultaneously live frames** — for every interleaving of
 any number of threads: at most one live frame is marked as living in the shared block; no two live frames (shared or
@@ -312,6 +307,22 @@ end Cocls.Storage.Mt
 namespace Cocls.Storage
 
 /-! ### non-vacuity, and why the contract (`ok`) is needed -/
+
+/-- `c19_warm_no_alloc` is not vacuous: buffer storage over `std::vector<uint32_t>`, a 33 byte frame, then a 20 byte
+frame after the owner shrank the vector in between -/
+example : (run (init { pol := Policy.buffer 4 }) ([] ++ Op.alloc 0 33 :: [Op.free 0, Op.bufset 3])).ok = true
+    ∧ (run (init { pol := Policy.buffer 4 }) ([] ++ Op.alloc 0 33 :: [Op.free 0, Op.bufset 3])).heap.live = [(0, 36)] := by decide
+
+/-- `c19_warm_stack` is not vacuous: fresh state variable (0), the first frame goes to the heap -/
+example : (run (init { pol := Policy.stack 0 }) [Op.newobj]).objs[0]? = some 0
+    ∧ ¬ need (run (init { pol := Policy.stack 0 }) [Op.newobj]).cfg 30 ≤ 0 := by decide
+
+/-- `c19_fallback_freed_once` is not vacuous: a shared frame and a fallback frame, both released, storage destroyed:
+blocks 0 and 1 were each deleted once -/
+example : (run (init { pol := Policy.mtsafe }) [Op.alloc 0 40, Op.alloc 0 24, Op.free 0, Op.free 1]).ok = true
+    ∧ (run (init { pol := Policy.mtsafe }) [Op.alloc 0 40, Op.alloc 0 24, Op.free 0, Op.free 1]).frames = []
+    ∧ (run (init { pol := Policy.mtsafe }) [Op.alloc 0 40, Op.alloc 0 24, Op.free 0, Op.free 1, Op.destroy]).heap.dels = [1, 0] := by
+  decide
 
 /-- reachable, contract respected, with a reused block and a live frame -/
 example : (run (init { pol := Policy.reusable }) [Op.alloc 0 40, Op.free 0, Op.alloc 0 24]).ok = true
